@@ -899,7 +899,7 @@ class ListOp(Op):
         elif meth == "clear":
             fn = lambda: lst.clear()
         elif meth == "index":
-            fn = lambda: lst.index(objs(args[0]))
+            fn = lambda: lst.index(objs(args[0]), *args[1:])  # optional start, stop
         elif meth == "count":
             fn = lambda: lst.count(objs(args[0]))
         elif meth == "getitem":
@@ -1000,7 +1000,7 @@ class ListOp(Op):
                 L.clear()
                 val = None
             elif meth == "index":
-                val = L.index(args[0])
+                val = L.index(args[0], *args[1:])
             elif meth == "count":
                 val = L.count(args[0])
             elif meth == "getitem":
